@@ -1883,6 +1883,9 @@ class unyt_array(np.ndarray):
             u0 = getattr(i0, "units", None) or getattr(inp0, "units", None)
             u1 = getattr(i1, "units", None) or getattr(inp1, "units", None)
             ret_class = _get_binary_op_return_class(type(i0), type(i1))
+            if not (isinstance(ret_class, type) and issubclass(ret_class, unyt_array)):
+                # neither input is a unyt_array: we were dispatched to through out=
+                ret_class = type(self)
             if u0 is None:
                 u0 = Unit(registry=getattr(u1, "registry", None))
             if u1 is None and ufunc is not power:
